@@ -284,6 +284,9 @@ Qed.
 
 (* ------------------------------------------------------------------------------------------ *)
 (* set_bits *)
+Lemma set_bits_unfold v : set_bits v = set_bits_from 32 0 v.
+Proof. reflexivity. Qed.
+
 Lemma set_bits_from_in n : forall i v j, In j (set_bits_from n i v) -> i <= j < i + Z.of_nat n /\ Z.testbit v j = true.
 Proof.
   induction n as [|n IH]; intros i v j Hin; cbn [set_bits_from] in Hin; [contradiction|].
@@ -301,7 +304,8 @@ Qed.
 
 Lemma set_bits_in v bf j : 0 <= bf -> 0 <= v < 2 ^ bf -> In j (set_bits v) -> 0 <= j < bf /\ j < 32.
 Proof.
-  intros Hbf Hv Hin. apply set_bits_from_in in Hin. destruct Hin as [Hr Ht].
+  intros Hbf Hv Hin. rewrite set_bits_unfold in Hin. apply set_bits_from_in in Hin. destruct Hin as [Hr Ht].
+  change (Z.of_nat 32) with 32 in Hr.
   split; [|lia]. split; [lia|].
   destruct (Z_lt_le_dec j bf); [assumption|].
   rewrite (testbit_small v bf j) in Ht by lia. discriminate.
@@ -324,13 +328,13 @@ Qed.
 
 Lemma set_bits_from_length n : forall i v, (length (set_bits_from n i v) <= n)%nat.
 Proof.
-  induction n as [|n IH]; intros i v; cbn [set_bits_from]; [lia|].
+  induction n as [|n IH]; intros i v; cbn [set_bits_from length]; [lia|].
   specialize (IH (i + 1) v). destruct (Z.testbit v i); cbn [length]; lia.
 Qed.
 
 Lemma set_bits_trunc v bf : 0 <= bf <= 32 -> 0 <= v < 2 ^ bf -> set_bits v = set_bits_from (Z.to_nat bf) 0 v.
 Proof.
-  intros Hbf Hv. unfold set_bits.
+  intros Hbf Hv. rewrite set_bits_unfold.
   replace 32%nat with (Z.to_nat bf + (32 - Z.to_nat bf))%nat by lia.
   rewrite set_bits_from_app. rewrite (set_bits_from_nil _ (0 + _)); [apply app_nil_r|].
   intros j Hj. apply (testbit_small v bf); lia.
@@ -461,21 +465,15 @@ Qed.
 
 (* ------------------------------------------------------------------------------------------ *)
 (* header *)
+Lemma header_height_eq h : Z.shiftr (Z.land h 124) 2 = (h / 4) mod 32.
+Proof.
+  rewrite Z.shiftr_land. change (Z.shiftr 124 2) with (Z.ones 5). rewrite Z.land_ones by lia.
+  rewrite Z.shiftr_div_pow2 by lia. reflexivity.
+Qed.
+
 Lemma header_height_range h : 0 <= Z.shiftr (Z.land h 124) 2 <= 31.
 Proof.
-  rewrite Z.shiftr_div_pow2 by lia. change (2 ^ 2) with 4.
-  assert (0 <= Z.land h 124 <= 124).
-  { change 124 with (Z.shiftl (Z.ones 5) 2).
-    split; [apply Z.land_nonneg; right; vm_compute; discriminate|].
-    assert (E : Z.land h (Z.shiftl (Z.ones 5) 2) = Z.shiftl (Z.land (Z.shiftr h 2) (Z.ones 5)) 2).
-    { rewrite Z.shiftl_land. rewrite <- (Z.ldiff_ones_r h 2) by lia.
-      apply Z.bits_inj'. intros n Hn. rewrite !Z.land_spec, Z.ldiff_spec.
-      destruct (Z_lt_le_dec n 2).
-      - rewrite (Z.shiftl_spec_low (Z.ones 5)) by lia. rewrite !andb_false_r. reflexivity.
-      - rewrite Z.ones_spec_high by lia. cbn [negb]. rewrite andb_true_r. reflexivity. }
-    rewrite E. rewrite Z.land_ones by lia. rewrite Z.shiftl_mul_pow2 by lia.
-    change (2 ^ 2) with 4. change (2 ^ 5) with 32. lia. }
-  lia.
+  rewrite header_height_eq. pose proof (Z.mod_pos_bound (h / 4) 32 ltac:(lia)). lia.
 Qed.
 
 Theorem decode_total data bias maxv : Forall is_byte data -> Z.of_nat (length data) <= 2 ^ 27 ->
@@ -484,9 +482,9 @@ Proof.
   intros Hby Hlen. destruct data as [|h tree]; [right; reflexivity|].
   unfold decode. set (bf := bf_of_bits (Z.land h 3)). set (H := Z.shiftr (Z.land h 124) 2).
   assert (Hbf : bf_valid bf = true) by apply bf_of_bits_valid.
-  pose proof (header_height_range h) as HH. fold H in HH.
+  pose proof (header_height_range h) as HH. fold H in HH. clearbody bf H.
   destruct (Z.ltb_spec (max_height bf) H); [right; reflexivity|].
-  unfold decode_nodes. destruct (Z.eqb_spec H 0); [left; eauto|].
+  unfold decode_nodes. destruct (Z.eqb_spec H 0) as [|HH0]; [left; eauto|].
   rewrite <- (st_of_index_0 bf).
   inversion Hby as [|? ? _ Htree]; subst.
   pose proof (all_nodes_length bf tree Hbf) as HL. pose proof (bf_ge2 bf Hbf) as Hb2.
@@ -503,8 +501,7 @@ Proof.
   assert (Hn : 0 <= n <= Z.of_nat (length q')).
   { unfold n. split; [apply Z.mod_pos_bound; reflexivity|]. apply Z.mod_le; [lia | reflexivity]. }
   assert (Hsk : exists s2, ibs_skip bf (st_of_index bf i') n = Some s2).
-  { unfold ibs_skip, st_of_index, U32 in *.
-    assert (Hbound : n * bf + 6 < 4294967296) by (change (2 ^ 27) with 134217728 in Hlen; nia).
+  { unfold ibs_skip, st_of_index, U32 in *. change (2 ^ 27) with 134217728 in Hlen.
     destruct (bf_cases _ Hbf) as [E | [E | [E | E]]]; rewrite E in *; cbn [Z.eqb Pos.eqb orb].
     - destruct (Z.leb_spec 4294967296 (n * 2)); [lia|].
       destruct (Z.leb_spec 4294967296 (Z.of_nat (2 * (i' mod 4)) + n * 2)); [lia | eauto].
